@@ -100,3 +100,11 @@ Theorem C07_precedence_mirrored :
 Proof. exact generator_precedence_mirrors_parser. Qed.
 Print Assumptions C07_precedence_mirrored.
 ''')
+mk("C08","regenerated C means the same as the original to a C compiler","RegenExamples"," Generator ParamProofs GenParam",
+'''(* what the generator emits does not depend on coordinates (all ASTs) - see C07 *)
+Theorem C08_gen_ignores_coords : forall (A B: Type) (g: A -> B) rp fuel (v: value A),
+  generate B rp fuel (vmap A B g v) = match generate A rp fuel v with
+                                       | GOk x => GOk x | GCrash => GCrash | GFuel => GFuel end.
+Proof. exact gen_ignores_coords. Qed.
+Print Assumptions C08_gen_ignores_coords.
+''')
